@@ -29,6 +29,9 @@ namespace rkcommon {
       // The underlying array from the fixed array being viewed, to keep
       // the data alive for the view's lifetime
       std::shared_ptr<FixedArray<T>> data;
+      // The viewed elements themselves: 'data' may be assigned a new array
+      // while this view is alive
+      std::shared_ptr<T> storage;
     };
 
     // Inlined FixedArrayView definitions
@@ -37,7 +40,7 @@ namespace rkcommon {
     FixedArrayView<T>::FixedArrayView(std::shared_ptr<FixedArray<T>> &_data,
                                       size_t offset,
                                       size_t size)
-        : data(_data)
+        : data(_data), storage(_data->array)
     {
       AbstractArray<T>::setPtr(data->begin() + offset, size);
     }
